@@ -53,35 +53,45 @@ Lemma map_snd_tag (w : nat) (rs : list bytes) : map snd (map (fun r => (w, r)) r
 Proof. rewrite map_map. cbn. apply map_id. Qed.
 
 (* ---- the invariant ---- *)
-(* steps : how many steps each writer has taken so far (ghost, for the progress statement) *)
-Definition winv (j0 : journal) (batches : list (list levent)) (steps : nat -> nat) (st : cstate) : Prop :=
+(* steps : how many steps each writer has taken so far (ghost, for the progress statement).  What a writer gets
+   into the journal is the accepted prefix of its batch: the events before the first oversize one *)
+Definition winv (cfg : jcfg) (j0 : journal) (batches : list (list levent)) (steps : nat -> nat) (st : cstate) : Prop :=
   flat (cs_j st) = flat j0 ++ map snd (cs_log st) /\
   length (cs_ws st) = length batches /\
   (forall p, In p (cs_log st) -> (fst p < length batches)%nat) /\
   (forall w wr b, nth_error (cs_ws st) w = Some wr -> nth_error batches w = Some b ->
-      written_by w (cs_log st) ++ map iw_rec (wr_it wr) = map iw_rec b /\
-      wr_failed wr = false /\
-      (wr_done wr = true -> wr_it wr = []) /\
-      (wr_done wr = false -> (length (wr_it wr) + steps w <= length b)%nat /\ (steps w = O \/ wr_it wr <> []))).
+      written_by w (cs_log st) ++ map iw_rec (fit_prefix (w_limit cfg) (wr_it wr)) = map iw_rec (fit_prefix (w_limit cfg) b) /\
+      has_big (w_limit cfg) (wr_it wr) = has_big (w_limit cfg) b /\
+      (wr_failed wr = true -> wr_done wr = true) /\
+      (wr_done wr = true -> fit_prefix (w_limit cfg) (wr_it wr) = [] /\ wr_failed wr = has_big (w_limit cfg) b) /\
+      (wr_done wr = false -> (length (fit_prefix (w_limit cfg) (wr_it wr)) + steps w <= length (fit_prefix (w_limit cfg) b))%nat /\
+                             (steps w = O \/ fit_prefix (w_limit cfg) (wr_it wr) <> []))).
 
-Lemma winv_init j0 batches : winv j0 batches (fun _ => O) (cinit j0 batches).
+Lemma winv_init cfg j0 batches : winv cfg j0 batches (fun _ => O) (cinit j0 batches).
 Proof.
   unfold winv, cinit. cbn [cs_j cs_ws cs_log map]. rewrite app_nil_r, map_length.
   split; [reflexivity|]. split; [reflexivity|]. split; [intros p []|].
   intros w wr b Hw Hb. rewrite nth_error_map, Hb in Hw. cbn in Hw. injection Hw as <-.
   cbn [wr_it wr_done wr_failed]. unfold written_by. cbn [filter map app].
-  split; [reflexivity|]. split; [reflexivity|]. split; [discriminate|]. intros _. split; [lia|left; reflexivity].
+  split; [reflexivity|]. split; [reflexivity|]. split; [discriminate|]. split; [discriminate|]. intros _. split; [lia|left; reflexivity].
 Qed.
 
 Definition bump (steps : nat -> nat) (w : nat) : nat -> nat := fun x => if Nat.eqb x w then S (steps x) else steps x.
 
-Lemma ls_rep_iw (it : list levent) : rep_iw (list levent) (fun l evs => l = evs) it (map iw_rec it).
-Proof. exists it. split; reflexivity. Qed.
+Definition ls_rep : list levent -> list levent -> bool -> Prop := nofail (fun (l evs : list levent) => l = evs).
+
+Lemma ls_rep_iw mr (it : list levent) :
+  rep_iw (list levent) ls_rep mr it (map iw_rec (fit_prefix mr it)) (has_big mr it).
+Proof. exists it, false. split; [split; reflexivity|]. split; [reflexivity|]. rewrite orb_false_r. reflexivity. Qed.
+
+Lemma rep_iw_ls mr it recs fl : rep_iw (list levent) ls_rep mr it recs fl ->
+  recs = map iw_rec (fit_prefix mr it) /\ fl = has_big mr it.
+Proof. intros (evs & flL & (-> & ->) & -> & ->). rewrite orb_false_r. split; reflexivity. Qed.
 
 Lemma cstep_inv fuel cfg j0 batches steps st w : 0 < max_chunk cfg ->
   (forall b, In b batches -> (length b < fuel)%nat) ->
-  winv j0 batches steps st ->
-  exists st', cstep fuel cfg st w = Ok st' /\ winv j0 batches (bump steps w) st' /\
+  winv cfg j0 batches steps st ->
+  exists st', cstep fuel cfg st w = Ok st' /\ winv cfg j0 batches (bump steps w) st' /\
     exists more, cs_log st' = cs_log st ++ more.
 Proof.
   intros Hmax Hfuel (Hflat & Hlen & Hlog & Hw).
@@ -93,24 +103,54 @@ Proof.
   assert (Hwlt : (w < length (cs_ws st))%nat) by (apply nth_error_Some; congruence).
   destruct (nth_error batches w) as [b|] eqn:Eb.
   2:{ apply nth_error_None in Eb. lia. }
-  destruct (Hw w wr b Ewr Eb) as (Hsplit & Hfail & Hdone & Hprog).
+  destruct (Hw w wr b Ewr Eb) as (Hsplit & Hbig & Hfd & Hdone & Hprog).
   destruct (wr_done wr) eqn:Ed.
   - (* finished writers do nothing *)
     exists st. split; [reflexivity|]. split; [|exists []; rewrite app_nil_r; reflexivity].
     split; [exact Hflat|]. split; [exact Hlen|]. split; [exact Hlog|].
-    intros w' wr' b' Hw' Hb'. destruct (Hw w' wr' b' Hw' Hb') as (A & B & C & D). repeat split; try assumption.
-    all: unfold bump; destruct (Nat.eqb_spec w' w); [subst; congruence|]; apply D; assumption.
+    intros w' wr' b' Hw' Hb'. destruct (Hw w' wr' b' Hw' Hb') as (A & A' & B & C & D).
+    split; [exact A|]. split; [exact A'|]. split; [exact B|]. split; [exact C|].
+    unfold bump; destruct (Nat.eqb_spec w' w); [subst; intros Hnd; congruence|exact D].
   - (* one Journal.Write call *)
-    assert (Hitlen : (length (wr_it wr) <= length b)%nat).
-    { apply (f_equal (@length bytes)) in Hsplit. rewrite app_length, !map_length in Hsplit. lia. }
-    assert (Hf : (length (map iw_rec (wr_it wr)) < fuel)%nat).
-    { rewrite map_length. specialize (Hfuel b (nth_error_In _ _ Eb)). lia. }
-    destruct (journal_write_spec (list levent) _ _ _ (iw_laws (list levent) ls_get ls_next _ ls_laws)
-                fuel cfg (cs_j st) (wr_it wr) (map iw_rec (wr_it wr)) Hmax (ls_rep_iw (wr_it wr)) Hf)
-      as (k & j' & it' & pos & Hjw & Hfl & (evs1 & -> & E1) & Hk & Hk1).
-    rewrite Hjw. cbn [obind].
+    set (mr := w_limit cfg) in *.
+    remember (map iw_rec (fit_prefix mr (wr_it wr))) as l eqn:El.
+    assert (Hitlen : (length l <= length (fit_prefix mr b))%nat).
+    { apply (f_equal (@length bytes)) in Hsplit. rewrite app_length, !map_length in Hsplit. rewrite El, map_length. lia. }
+    assert (Hf : (length l < fuel)%nat).
+    { specialize (Hfuel b (nth_error_In _ _ Eb)). pose proof (fit_prefix_length mr b). lia. }
+    assert (HRi : rep_iw (list levent) ls_rep mr (wr_it wr) l (has_big mr (wr_it wr))) by (rewrite El; apply ls_rep_iw).
+    pose proof (iw_laws (list levent) ls_get ls_next ls_rep ls_laws mr) as Liw.
+    destruct (journal_write_spec (list levent) _ _ _ Liw fuel cfg (cs_j st) (wr_it wr) l _ Hmax HRi Hf)
+      as (k & j' & it' & pos & e & Hjw & Hfl & HR1 & Hk & Hk1 & Hnil).
+    cbv zeta. rewrite Hjw. cbn [obind].
+    destruct (rep_iw_ls mr it' _ _ HR1) as [E1 Ebig1].
+    (* what the writer's private Get says afterwards, and the error of the call *)
+    assert (Hfin : exists fin failed,
+      match e with
+      | WNil => match iw_get (list levent) ls_get mr it' with (_, Ok (Some _)) => false | _ => true end
+      | _ => true
+      end = fin /\
+      match e with
+      | WNil => match iw_get (list levent) ls_get mr it' with (_, Ok _) => false | _ => true end
+      | _ => (k <=? 0)%nat
+      end = failed /\
+      (fin = true -> skipn k l = [] /\ failed = has_big mr (wr_it wr)) /\
+      (fin = false -> skipn k l <> [] /\ failed = false /\ (1 <= k)%nat)).
+    { destruct l as [|r0 l0].
+      - rewrite (Hnil eq_refl). cbn [length] in Hk. assert (k = O) by lia. subst k. cbn [skipn] in *.
+        destruct (has_big mr (wr_it wr)) eqn:Eh; cbn [end_err].
+        + exists true, true. repeat split; try reflexivity; discriminate.
+        + destruct (proj1 Liw it' false HR1) as (s2 & Hg & _). rewrite Hg. cbn [end_res].
+          exists true, false. repeat split; try reflexivity; discriminate.
+      - destruct (Hk1 ltac:(discriminate)) as [Hkpos ->].
+        destruct (skipn k (r0 :: l0)) as [|r2 l2] eqn:Esk.
+        + destruct (proj1 Liw it' _ HR1) as (s2 & Hg & _). rewrite Hg.
+          destruct (has_big mr (wr_it wr)); cbn [end_res]; [exists true, true|exists true, false]; repeat split; try reflexivity; discriminate.
+        + destruct (proj2 Liw it' r2 l2 _ HR1) as (s2 & Hg & _). rewrite Hg.
+          exists false, false. repeat split; try reflexivity; try discriminate. exact Hkpos. }
+    destruct Hfin as (fin & failed & -> & -> & Hfin1 & Hfin0).
     eexists. split; [reflexivity|].
-    assert (Hnew : skipn (length (flat (cs_j st))) (flat j') = firstn k (map iw_rec (wr_it wr))).
+    assert (Hnew : skipn (length (flat (cs_j st))) (flat j') = firstn k l).
     { rewrite Hfl. rewrite skipn_app, Nat.sub_diag, skipn_all. reflexivity. }
     rewrite Hnew.
     split; [|cbn [cs_log]; eexists; reflexivity].
@@ -125,26 +165,29 @@ Proof.
     intros w' wr' b' Hw' Hb'.
     destruct (Nat.eq_dec w w') as [<-|Hne].
     + rewrite nth_set_nth_same in Hw' by exact Hwlt. injection Hw' as <-. rewrite Eb in Hb'. injection Hb' as <-.
-      cbn [wr_it wr_done wr_failed].
+      cbn [wr_it wr_done wr_failed]. fold mr.
       rewrite written_by_app, written_by_own.
+      assert (Hl1 : length (fit_prefix mr it') = (length l - k)%nat).
+      { apply (f_equal (@length bytes)) in E1. rewrite skipn_length, map_length in E1. lia. }
       split.
       { rewrite <- app_assoc, <- E1, firstn_skipn. exact Hsplit. }
-      split; [reflexivity|].
-      assert (Hl1 : length evs1 = (length (wr_it wr) - k)%nat).
-      { apply (f_equal (@length bytes)) in E1. rewrite skipn_length, !map_length in E1. lia. }
+      split; [rewrite <- Ebig1; exact Hbig|].
       split.
-      { destruct evs1; [reflexivity|cbn; discriminate]. }
-      intros Hnd. destruct evs1 as [|e1 r1]; [cbn in Hnd; discriminate|].
+      { intros Hfa. destruct fin; [reflexivity|]. destruct (Hfin0 eq_refl) as (_ & Hc & _). congruence. }
+      split.
+      { intros Hfi. destruct (Hfin1 Hfi) as [Hs Hfa]. split.
+        - rewrite Hs in E1. destruct (fit_prefix mr it'); [reflexivity|discriminate].
+        - rewrite Hfa. exact Hbig. }
+      intros Hnd. destruct (Hfin0 Hnd) as (Hs & _ & Hkpos).
       unfold bump. rewrite Nat.eqb_refl.
-      assert (map iw_rec (wr_it wr) <> []).
-      { intros E. rewrite E, skipn_nil in E1. discriminate. }
-      specialize (Hk1 H). destruct (Hprog eq_refl) as [Hp1 _].
-      cbn [length] in *. split; [lia|right; discriminate].
+      destruct (Hprog eq_refl) as [Hp1 _].
+      assert (length l = length (fit_prefix mr (wr_it wr))) by (rewrite El, map_length; reflexivity).
+      split; [lia|right]. intros E0. rewrite E0 in E1. cbn [map] in E1. congruence.
     + rewrite nth_set_nth_other in Hw' by assumption.
-      destruct (Hw w' wr' b' Hw' Hb') as (A & B & C & D).
+      destruct (Hw w' wr' b' Hw' Hb') as (A & A' & B & C & D).
       rewrite written_by_app, written_by_other, app_nil_r by exact Hne.
       unfold bump. destruct (Nat.eqb_spec w' w); [subst; contradiction|].
-      split; [exact A|]. split; [exact B|]. split; [exact C|exact D].
+      split; [exact A|]. split; [exact A'|]. split; [exact B|]. split; [exact C|exact D].
 Qed.
 
 Fixpoint count_steps (sched : list nat) : nat -> nat :=
@@ -154,8 +197,8 @@ Fixpoint count_steps (sched : list nat) : nat -> nat :=
   end.
 
 Lemma crun_inv fuel cfg j0 batches : 0 < max_chunk cfg -> (forall b, In b batches -> (length b < fuel)%nat) ->
-  forall sched steps st, winv j0 batches steps st ->
-  exists st' steps', crun fuel cfg st sched = Ok st' /\ winv j0 batches steps' st' /\
+  forall sched steps st, winv cfg j0 batches steps st ->
+  exists st' steps', crun fuel cfg st sched = Ok st' /\ winv cfg j0 batches steps' st' /\
     (forall w, steps' w = (steps w + count_occ Nat.eq_dec sched w)%nat) /\
     exists more, cs_log st' = cs_log st ++ more.
 Proof.
@@ -196,31 +239,37 @@ Theorem interleave fuel cfg j0 batches sched : 0 < max_chunk cfg -> (forall b, I
     flat (cs_j st) = flat j0 ++ map snd (cs_log st) /\
     (forall p, In p (cs_log st) -> (fst p < length batches)%nat) /\
     forall w b, nth_error batches w = Some b ->
-      (* what w has written is a prefix of its batch, in its order, and a subsequence of the journal *)
-      (exists rest, map iw_rec b = written_by w (cs_log st) ++ rest) /\
+      (* what w has written is a prefix of the accepted part of its batch (the events before the first oversize one;
+         the whole batch when there is none), in its order, and a subsequence of the journal *)
+      (exists rest, map iw_rec (fit_prefix (w_limit cfg) b) = written_by w (cs_log st) ++ rest) /\
       subseq (written_by w (cs_log st)) (flat (cs_j st)) /\
-      (* no writer ever fails, and after max(|b|,1) steps of w the whole batch is in the journal, once *)
-      (forall wr, nth_error (cs_ws st) w = Some wr -> wr_failed wr = false) /\
-      ((Nat.max (length b) 1 <= count_occ Nat.eq_dec sched w)%nat -> written_by w (cs_log st) = map iw_rec b).
+      (* a writer fails only on an oversize event of its own batch, and after max(|accepted|,1) steps of w the whole
+         accepted part is in the journal, once, and w has failed exactly when its batch has an oversize event *)
+      (forall wr, nth_error (cs_ws st) w = Some wr -> wr_failed wr = true -> has_big (w_limit cfg) b = true) /\
+      ((Nat.max (length (fit_prefix (w_limit cfg) b)) 1 <= count_occ Nat.eq_dec sched w)%nat ->
+         written_by w (cs_log st) = map iw_rec (fit_prefix (w_limit cfg) b) /\
+         forall wr, nth_error (cs_ws st) w = Some wr -> wr_failed wr = has_big (w_limit cfg) b).
 Proof.
   intros Hmax Hfuel.
-  destruct (crun_inv fuel cfg j0 batches Hmax Hfuel sched (fun _ => O) (cinit j0 batches) (winv_init j0 batches))
+  destruct (crun_inv fuel cfg j0 batches Hmax Hfuel sched (fun _ => O) (cinit j0 batches) (winv_init cfg j0 batches))
     as (st & steps & Hrun & (Hflat & Hlen & Hlog & Hw) & Hcnt & _).
   exists st. split; [exact Hrun|]. split; [exact Hflat|]. split; [exact Hlog|].
   intros w b Hb.
   assert (Hwr : exists wr, nth_error (cs_ws st) w = Some wr).
   { destruct (nth_error (cs_ws st) w) eqn:E; [eauto|]. apply nth_error_None in E.
     assert (w < length batches)%nat by (apply nth_error_Some; congruence). lia. }
-  destruct Hwr as (wr & Ewr). destruct (Hw w wr b Ewr Hb) as (Hsplit & Hfail & Hdone & Hprog).
-  split; [exists (map iw_rec (wr_it wr)); symmetry; exact Hsplit|].
+  destruct Hwr as (wr & Ewr). destruct (Hw w wr b Ewr Hb) as (Hsplit & Hbig & Hfd & Hdone & Hprog).
+  split; [exists (map iw_rec (fit_prefix (w_limit cfg) (wr_it wr))); symmetry; exact Hsplit|].
   split.
   { rewrite Hflat. apply subseq_app_l.
     pose proof (subseq_map snd _ _ (written_by_subseq w (cs_log st))) as S. rewrite map_snd_tag in S. exact S. }
-  split; [intros wr' E; rewrite Ewr in E; injection E as <-; exact Hfail|].
+  split.
+  { intros wr' E Hfa; rewrite Ewr in E; injection E as <-. destruct (Hdone (Hfd Hfa)) as [_ <-]. exact Hfa. }
   intros Hsteps. destruct (wr_done wr) eqn:Ed.
-  - rewrite (Hdone eq_refl) in Hsplit. cbn [map] in Hsplit. rewrite app_nil_r in Hsplit. exact Hsplit.
+  - destruct (Hdone eq_refl) as [Hnil Hfa]. rewrite Hnil in Hsplit. cbn [map] in Hsplit. rewrite app_nil_r in Hsplit.
+    split; [exact Hsplit|]. intros wr' E. rewrite Ewr in E. injection E as <-. exact Hfa.
   - destruct (Hprog eq_refl) as [Hp1 Hp2]. rewrite Hcnt in Hp1, Hp2. cbn [Nat.add] in Hp1, Hp2.
-    destruct Hp2 as [Hz|Hne]; [lia|]. destruct (wr_it wr); [contradiction|cbn [length] in Hp1; lia].
+    destruct Hp2 as [Hz|Hne]; [lia|]. destruct (fit_prefix (w_limit cfg) (wr_it wr)); [contradiction|cbn [length] in Hp1; lia].
 Qed.
 
 (* a reader running between two steps sees a prefix of what it sees later: steps only append *)
@@ -229,7 +278,7 @@ Theorem reader_prefix fuel cfg j0 batches s1 s2 : 0 < max_chunk cfg -> (forall b
     exists more, flat (cs_j st2) = flat (cs_j st1) ++ more.
 Proof.
   intros Hmax Hfuel.
-  destruct (crun_inv fuel cfg j0 batches Hmax Hfuel s1 (fun _ => O) (cinit j0 batches) (winv_init j0 batches))
+  destruct (crun_inv fuel cfg j0 batches Hmax Hfuel s1 (fun _ => O) (cinit j0 batches) (winv_init cfg j0 batches))
     as (st1 & steps1 & Hrun1 & Hinv1 & _).
   destruct (crun_inv fuel cfg j0 batches Hmax Hfuel s2 steps1 st1 Hinv1) as (st2 & steps2 & Hrun2 & Hinv2 & _ & (more & Hmore)).
   exists st1, st2. split; [exact Hrun1|]. split.
